@@ -15,10 +15,12 @@
                  size different from the one last rendered at): after every render the screen equals the array.
   C02_caps       the capability strings regenerated from blessed are the control functions `TermOp` stands for.
 
-  Hypotheses: rows free of ESC/0x9b (C01's domain); cursor_pos on the screen; the terminal's background colour is the
-  default when the render starts (erasing uses the current background; every `str(FmtStr)` ends in the default state,
-  so the window itself never leaves another one).  Single-column characters: the terminal spec advances one column
-  per character; wide characters are outside it (C10).
+  Hypotheses: rows `Printable` - no control character at all (C0 incl. ESC/newline/tab, DEL, C1 incl. 0x9b), each
+  character one column wide ("single-column characters" in the property's quantifier; the terminal spec's `put` is
+  defined only for such cells; wide characters are C10's); cursor_pos on the screen; the terminal is in its DEFAULT
+  GRAPHIC STATE when the render starts (`t.g = {}`: `put` carries absolute formatting computed from the default state,
+  and erasing uses the current background) - every `str(FmtStr)` ends in the default state, and the theorems prove
+  `g = {}` again after each render, so the window itself never leaves another one.
 -/
 import Curtsies.Proofs.Window
 import Curtsies.Generated.Blessed
@@ -81,7 +83,7 @@ theorem renderFullscreen_eq (win : Win) (h w : Nat) (arr : List FmtStr) (pos : N
   rfl
 
 theorem C02_render (win : Win) (t : Term) (arr : List FmtStr) (pos : Nat × Nat)
-    (hpos : pos.1 < t.h ∧ pos.2 < t.w) (hbg : t.g.bg = none) (hesc : ∀ l ∈ arr, EscFree l) (hinv : Inv win t) :
+    (hpos : pos.1 < t.h ∧ pos.2 < t.w) (hbg : t.g = {}) (hprint : ∀ l ∈ arr, Printable l) (hinv : Inv win t) :
     (∀ r c, r < t.h → c < t.w → (exec t (renderFullscreen win t.h t.w arr pos).2).grid r c = arrayCell arr r c) ∧
     (exec t (renderFullscreen win t.h t.w arr pos).2).r = pos.1 ∧
     (exec t (renderFullscreen win t.h t.w arr pos).2).c = pos.2 ∧
@@ -90,8 +92,9 @@ theorem C02_render (win : Win) (t : Term) (arr : List FmtStr) (pos : Nat × Nat)
     (exec t (renderFullscreen win t.h t.w arr pos).2).scrollback = t.scrollback ∧
     (exec t (renderFullscreen win t.h t.w arr pos).2).h = t.h ∧
     (exec t (renderFullscreen win t.h t.w arr pos).2).w = t.w ∧
-    (exec t (renderFullscreen win t.h t.w arr pos).2).g.bg = none ∧
+    (exec t (renderFullscreen win t.h t.w arr pos).2).g = {} ∧
     Inv (renderFullscreen win t.h t.w arr pos).1 (exec t (renderFullscreen win t.h t.w arr pos).2) := by
+  have hesc : ∀ l ∈ arr, EscFree l := fun l hl => (hprint l hl).escFree
   rw [renderFullscreen_eq]
   simp only []
   -- the cache the loops compare against
@@ -237,14 +240,14 @@ def C02.run : Win → Term → List C02.Step → Win × Term
 def C02.Valid : Win → Term → List C02.Step → Prop
   | _, _, [] => True
   | win, t, .render arr pos :: rest =>
-    pos.1 < t.h ∧ pos.2 < t.w ∧ (∀ l ∈ arr, EscFree l) ∧
+    pos.1 < t.h ∧ pos.2 < t.w ∧ (∀ l ∈ arr, Printable l) ∧
       C02.Valid (renderFullscreen win t.h t.w arr pos).1 (exec t (renderFullscreen win t.h t.w arr pos).2) rest
   | win, t, .resize h w grid r c :: rest =>
     (win.lastH ≠ some h ∨ win.lastW ≠ some w) ∧ C02.Valid win (C02.resized t h w grid r c) rest
 
 theorem C02_run_inv (steps more : List C02.Step) :
-    ∀ (win : Win) (t : Term), Inv win t → t.g.bg = none → C02.Valid win t (steps ++ more) →
-      Inv (C02.run win t steps).1 (C02.run win t steps).2 ∧ (C02.run win t steps).2.g.bg = none ∧
+    ∀ (win : Win) (t : Term), Inv win t → t.g = {} → C02.Valid win t (steps ++ more) →
+      Inv (C02.run win t steps).1 (C02.run win t steps).2 ∧ (C02.run win t steps).2.g = {} ∧
       C02.Valid (C02.run win t steps).1 (C02.run win t steps).2 more := by
   induction steps with
   | nil => intro win t hi hb hv; exact ⟨hi, hb, hv⟩
@@ -268,7 +271,7 @@ theorem C02_run_inv (steps more : List C02.Step) :
     (`steps` is the history before that render, starting from any window/terminal pair satisfying `Inv`, e.g. a
     freshly constructed window on an arbitrary screen: `C02_initial`.) -/
 theorem C02_history (win : Win) (t : Term) (steps : List C02.Step) (arr : List FmtStr) (pos : Nat × Nat)
-    (hinv : Inv win t) (hbg : t.g.bg = none) (hv : C02.Valid win t (steps ++ [.render arr pos])) :
+    (hinv : Inv win t) (hbg : t.g = {}) (hv : C02.Valid win t (steps ++ [.render arr pos])) :
     let win1 := (C02.run win t steps).1
     let t1 := (C02.run win t steps).2
     let t2 := exec t1 (renderFullscreen win1 t1.h t1.w arr pos).2
